@@ -145,7 +145,10 @@ func init() {
 	// sync.Pool: a LIFO free list per pool (what a single P does between two
 	// collections); an object that was Put is handed out again by the next Get,
 	// so that state left in a recycled object is visible to the code under test.
-	type poolState struct{ free []value }
+	type poolState struct {
+		free []value
+		vcs  []vclock // happens-before: a Put is ordered before the Get that returns the object
+	}
 	poolOf := func(ex *Exec, p *value) *poolState {
 		if s, ok := ex.sideTab[p].(*poolState); ok {
 			return s
@@ -159,6 +162,8 @@ func init() {
 		if ps := poolOf(ex, p); len(ps.free) > 0 {
 			x := ps.free[len(ps.free)-1]
 			ps.free = ps.free[:len(ps.free)-1]
+			ex.hbJoin(ex.cur, ps.vcs[len(ps.vcs)-1])
+			ps.vcs = ps.vcs[:len(ps.vcs)-1]
 			return x
 		}
 		st := (*p).(structure)
@@ -175,6 +180,7 @@ func init() {
 		}
 		ps := poolOf(ex, a[0].(*value))
 		ps.free = append(ps.free, a[1])
+		ps.vcs = append(ps.vcs, ex.hbSnapshot(ex.cur))
 		return nil
 	})
 
